@@ -101,6 +101,12 @@ C16_PAIRS = [("m_lsn", "m_usn", "mirror"), ("m_lsn_t", "m_usn_t", "mirror"), ("m
              ("ldn_orth_wide", "ldn_wide_revcur", "negpsi"),
              ("rn_base", "rn_revbt", "revbt"), ("mn_lsn", "mn_usn", "mirror"), ("m_ldn_pf", "m_udn_pf", "mirror")]
 
+# ---- the same grids generated with worker processes (C13: identical, value for value, to the serial grid; seed C01_parallel_refine_result_dropped)
+_add(_c("lsn_orth_np2", "LSN", [2, 2], [3, 4, 3], 1, "lsn", dict(orthogonal=True, number_of_processors=2), fpol="quad", pressure="quad", wall="slanted"))
+_add(_c("cdn_orth_np3", "CDN", [2, 2], [3, 3, 3, 3, 3, 3], 1, "cdn", dict(orthogonal=True, number_of_processors=3, **DN), fpol="quad", pressure="quad"))
+_add(_c("lsn_nonorth_np2", "LSN", [2, 2], [3, 4, 3], 1, "lsn", dict(orthogonal=False, number_of_processors=2), fpol="quad"))
+C13_PAIRS = [("lsn_orth", "lsn_orth_np2"), ("cdn_orth", "cdn_orth_np3"), ("lsn_nonorth", "lsn_nonorth_np2")]
+
 # ---- pairs for C10 (all ny doubled, nx unchanged: every face of the coarse grid must be a face of the fine grid)
 _add(_c("lsn_orth_y2", "LSN", [2, 2], [6, 8, 6], 1, "lsn", dict(orthogonal=True), fpol="quad", pressure="quad", wall="slanted"))
 _add(_c("cdn_orth_y2", "CDN", [2, 2], [6, 6, 6, 6, 6, 6], 1, "cdn", dict(orthogonal=True, **DN), fpol="quad"))
@@ -124,7 +130,10 @@ _add(_c("w_lsn_orth_sl_closed_s5", "LSN", [2, 2], [3, 4, 3], 1, "lsn", dict(orth
 # must say so there too (seed C11_penalty_skip_inner_regions)
 _add(_c("w_lsn_orth_limiter", "LSN", [2, 2], [3, 10, 3], 1, "lsn", dict(orthogonal=True), fpol="quad", wall="limiter"))
 _add(_c("w_lsn_nonorth_limiter", "LSN", [2, 2], [3, 10, 3], 2, "lsn", dict(orthogonal=False), fpol="quad", wall="limiter", wall_clockwise=True))
-C11_WALLS_QUICK = ["w_lsn_orth_limiter", "w_lsn_nonorth_limiter", "w_lsn_nonorth_sl", "w_lsn_nonorth_sl_acw_g2", "w_lsn_nonorth_many_g0", "w_usn_nonorth_sl", "w_lsn_orth_many_acw",
+# a wall that is not convex: an inboard baffle hides part of the inner leg from the centre of the domain (seed C11_penalty_any_crossing)
+_add(_c("w_lsn_orth_baffle", "LSN", [2, 2], [4, 4, 3], 2, "lsn", dict(orthogonal=True), fpol="quad", wall="baffle"))
+_add(_c("w_lsn_nonorth_baffle", "LSN", [2, 2], [4, 4, 3], 1, "lsn", dict(orthogonal=False), fpol="quad", wall="baffle", wall_clockwise=True))
+C11_WALLS_QUICK = ["w_lsn_orth_baffle", "w_lsn_nonorth_baffle", "w_lsn_orth_limiter", "w_lsn_nonorth_limiter", "w_lsn_nonorth_sl", "w_lsn_nonorth_sl_acw_g2", "w_lsn_nonorth_many_g0", "w_usn_nonorth_sl", "w_lsn_orth_many_acw",
                    "w_lsn_orth_cw_s3", "w_lsn_orth_acw_s1", "w_lsn_orth_sl_closed_s5"]
 C11_WALLS = C11_WALLS_QUICK + ["w_cdn_nonorth_sl", "w_cdn_orth_sl_g2"]
 
